@@ -190,6 +190,8 @@ def gen_plan(seed, index, tier):
     plan["clock"] = [[rng.choice(["fwd", "fwd", "back", "stall"]), rng.choice([1e-3, 1.0, 100.0, 1e6])] for _ in range(60)]
     plan["fresh"] = bool(TIERS[tier].get("fresh_every") and index % TIERS[tier]["fresh_every"] == 0)
     plan["edits"] = [rng.random() < 0.35 for _ in range(8)]
+    if cls == "CR" and plan["cfg"]["frame"] and len(plan["cfg"]["sens"]) > 1 and "restart" in plan["ops"]:
+        plan["fresh"] = True  # named columns: restore in other interpreters (other hash seeds) as well
     return plan
 
 
@@ -808,13 +810,16 @@ def _fresh_restart(plan, ctx, est, k, sigbase):
     else:
         queries = [{"method": "transform", "args": [Xp], "kwargs": {}}]
     here = [kernel.canon(np.asarray(getattr(est, q["method"])(*q["args"], **q["kwargs"]))) for q in queries]
-    ok, there = seams.restart_fresh(est, queries)
-    ctx.fault("restart_fresh")
-    ctx.fault("hashseed")
-    if not ok:
-        ctx.fail("C19.restart_fresh", f"{cls}: unpickling / predicting in a fresh interpreter failed: {there}", sigbase)
-    elif there != here:
-        ctx.fail("C19.restart_fresh", f"{cls}: estimator restored in a fresh interpreter (other PYTHONHASHSEED) predicts differently", sigbase)
+    for hs in (("1", "2", "5", "11", "23") if cls == "CR" else ("1",)):
+        ok, there = seams.restart_fresh(est, queries, hashseed=hs)
+        ctx.fault("restart_fresh")
+        ctx.fault("hashseed")
+        if not ok:
+            ctx.fail("C19.restart_fresh", f"{cls}: unpickling / predicting in a fresh interpreter failed: {there}", sigbase)
+            return
+        if there != here:
+            ctx.fail("C19.restart_fresh", f"{cls}: estimator restored in a fresh interpreter (PYTHONHASHSEED={hs}) predicts differently", sigbase)
+            return
 
 
 # --------------------------------------------------------------------------
